@@ -174,6 +174,7 @@ func cmdCheck(args []string) {
 	}
 	t0 := time.Now()
 	rep := runCheck(*repo, *verif, *prop, *tier, seed, nil)
+	runBounded(*repo, *verif, *prop, *tier, seed, rep)
 	rep.WallS = time.Since(t0).Seconds()
 	writeEvidence(*verif, rep)
 	for _, l := range rep.Lines {
